@@ -12,4 +12,4 @@ def run(ctx):
     ctx.assumptions += ["int elements 1..3 (4); Filter with the predicate 'odd'; enumerations compared as sorted lists (map order is unspecified)"]
 
 def replay(ctx, rp):
-    return vlib.generic_replay(ctx, rp)
+    return vlib.replay_any(ctx, rp)
